@@ -99,6 +99,8 @@ func newProfRig(goarch string) (*profRig, error) {
 		helloName = "hello_386"
 	} else if goarch == "arm64" {
 		helloName = "hello_arm64"
+	} else if goarch == "amd64-dyn" {
+		helloName = "hello_dyn"
 	}
 	hello, err := kchild.Bin(helloName)
 	if err != nil {
